@@ -10,6 +10,7 @@ package jsonschema
 import (
 	"errors"
 	"fmt"
+	"math"
 	"net/url"
 	"reflect"
 	"regexp"
@@ -348,6 +349,23 @@ func (s *Schema) checkLocal(report func(error), infos map[*Schema]*resolvedInfo)
 	// As a special case, we can validate the 2020-12 meta-schema.
 	if s.Vocabulary != nil && s.Schema != draft202012SchemaVersion {
 		addf("cannot validate a schema with $vocabulary")
+	}
+
+	// A numeric bound must be a JSON number. NaN and the infinities (which only a
+	// Schema built in Go can hold) are not, and cannot be compared with an instance.
+	for _, b := range []struct {
+		name string
+		val  *float64
+	}{
+		{"multipleOf", s.MultipleOf},
+		{"minimum", s.Minimum},
+		{"maximum", s.Maximum},
+		{"exclusiveMinimum", s.ExclusiveMinimum},
+		{"exclusiveMaximum", s.ExclusiveMaximum},
+	} {
+		if b.val != nil && (math.IsNaN(*b.val) || math.IsInf(*b.val, 0)) {
+			addf("%s: %v is not a JSON number", b.name, *b.val)
+		}
 	}
 
 	info := infos[s]
